@@ -8,7 +8,10 @@ import (
 	"encoding/json"
 	"fmt"
 	"math"
+	"os"
+	"path/filepath"
 	"runtime"
+	"sort"
 	"strings"
 	"sync"
 	"sync/atomic"
@@ -267,6 +270,11 @@ func init() {
 				}
 				return
 			}
+			var rcg regCase
+			if json.Unmarshal(ctx.Replay, &rcg) == nil && rcg.Gauges && len(rcg.Progs) > 0 {
+				regReplay(ctx, "delivered_values_are_updates_and_fresh")
+				return
+			}
 			var c c02Case
 			if err := json.Unmarshal(ctx.Replay, &c); err != nil {
 				fatal(err)
@@ -416,6 +424,31 @@ func init() {
 				ctx.Fail("delivered_values_are_updates_and_fresh", f, cs, nil)
 			}
 		}
+		// obtain / update / Close / obtain again interleaved with report passes under the schedule
+		// controller, over the registry's yield points (a pass parked between finding a closed scope and
+		// removing it, another goroutine re-obtaining, updating and closing the same identity meanwhile):
+		// the last update before a Close, or a later one, is delivered; a live scope's last update is
+		// the most recent delivery after a complete pass
+		if ctx.Corpus != "" { // C07's stored schedules first, with a gauge per scope
+			files, _ := filepath.Glob(filepath.Join(ctx.Corpus, "C07", "corpus", "*.json"))
+			sort.Strings(files)
+			for _, f := range files {
+				raw, err := os.ReadFile(f)
+				var rc regCase
+				if err != nil || json.Unmarshal(raw, &rc) != nil || len(rc.Progs) == 0 {
+					continue
+				}
+				rc.Gauges = true
+				out, _ := c07Exec(&rc, true)
+				cc := rc
+				cc.Sched = out.Sched
+				ctx.Case(cc, "", "registry-cycles-under-schedule", "")
+				if fail := regPredicate(&out); fail != "" {
+					ctx.Fail("delivered_values_are_updates_and_fresh", "registry cycles: "+fail, cc, out)
+				}
+			}
+		}
+		regCrossStreamG(ctx, ctx.N(500, 5000), "delivered_values_are_updates_and_fresh", true)
 	}
 }
 
